@@ -4,6 +4,7 @@ import (
 	"fmt"
 	"go/token"
 	"go/types"
+	"regexp"
 	"sort"
 	"strings"
 
@@ -401,16 +402,17 @@ func runC10(c *an.Ctx) {
 	}
 
 	// ---- R6 once spilled, always spilled.
-	if bw := c.P.Func("internal/corazawaf.(*BodyBuffer).Write"); bw != nil {
+	if bw := c.P.Func("internal/corazawaf.(*BodyBuffer).Write"); bw != nil && len(bw.Params) == 2 {
+		cumul := regexp.MustCompile(`^\(\w+\.length \+ len\(\w+\)\)$`)
 		an.Instrs(bw, func(in ssa.Instruction) {
-			if !(an.IsCallToMethod(in, "bytes", "Buffer", "Write") && an.Expr(an.CallOf(in).Args[1]) == "data") {
+			if !(an.IsCallToMethod(in, "bytes", "Buffer", "Write") && an.CallOf(in).Args[1] == ssa.Value(bw.Params[1])) {
 				return
 			}
 			f := an.FactsAt(in)
-			okGuard := f.Has("br.writer", "==", "nil")
+			okGuard := f.HasSuffix(".writer", "==", "nil")
 			okCumul := false
 			for _, a := range f {
-				if a.L == "(br.length + len(data))" && a.Op == "<=" && a.R == "br.options.MemoryLimit" {
+				if cumul.MatchString(a.L) && a.Op == "<=" && strings.HasSuffix(a.R, ".options.MemoryLimit") {
 					okCumul = true
 				}
 			}
@@ -418,6 +420,39 @@ func runC10(c *an.Ctx) {
 				"the memory write is guarded by the cumulative size (monotone, so it stays false once the file exists)",
 				"the in-memory write is guarded neither by writer == nil nor by the cumulative length: after the first spill a later small chunk would go to memory while readers read the file", f.Strings()...)
 		})
+	}
+	// ... and a reader decides where to read from by where the body is *now*: a reader handed out before the
+	// spill must follow the body to the file (the location is not remembered from the time Reader() was called)
+	if rd := c.P.Func("internal/corazawaf.(*bodyBufferReader).Read"); rd != nil {
+		nMem := 0
+		an.Instrs(rd, func(in ssa.Instruction) {
+			if !an.IsCallToMethod(in, "bytes", "Buffer", "Bytes") {
+				return
+			}
+			nMem++
+			w := an.FindPath(an.PathQuery{Fn: rd, Target: func(x ssa.Instruction) bool { return x == in },
+				PruneEdge: func(b *ssa.BasicBlock, si int) bool {
+					ifi, ok := b.Instrs[len(b.Instrs)-1].(*ssa.If)
+					if !ok {
+						return false
+					}
+					for _, a := range an.CondAtoms(ifi.Cond, si == 0) {
+						if strings.HasSuffix(a.L, ".writer") && a.Op == "==" && a.R == "nil" {
+							return true
+						}
+						if strings.HasSuffix(a.L, "HasAccessToFS") && (a.Op == "==" && a.R == "false" || a.Op == "!=" && a.R == "true") {
+							return true
+						}
+					}
+					return false
+				}})
+			if w != nil {
+				c.Bad("R6", "bodyBufferReader.Read: memory is read only while no spill file exists", in.Pos(), "the reader takes the in-memory branch on a path that has not just tested the buffer's spill file (writer == nil) or the build's file-system switch: a reader created before the body spilled to disk keeps reading the (now empty) memory buffer", c.P.TrailString(w)...)
+			} else {
+				c.Ok("R6", "bodyBufferReader.Read: memory is read only while no spill file exists", in.Pos(), "every path to the memory read tests writer == nil (or !HasAccessToFS) at read time")
+			}
+		})
+		c.MinCount("R6", "memory reads in bodyBufferReader.Read", nMem, 1)
 	}
 }
 
